@@ -242,6 +242,48 @@ seed("C15-r2-3", "C15", "mpc results converted through Python complex", "complex
      "C15 quick: backend-complex-component", first_result="missed (HELD): the backend was driven with real inputs only",
      strengthened="task_backend_complex: identity / conjugate / negate / square on complex64 and complex128 (x*x an exact tie, y tiny), every flush setting, scalar and array forms")
 
+# ---- third round (eight properties): agents knew both earlier lists
+seed("C04-r3-1", "C04", "casts of a constant re-typed through the cast node", "deep_first=False and an upcast / downcast directly over a named constant or a literal that is not representable in the narrower type",
+     "C04 quick: step:float:* on the cast rules", first_result="missed (HELD): casts were only generated around arbitrary sub-expressions, rarely directly over a constant",
+     strengthened="a third of the cast sites put a single cast directly over a named constant / non-representable literal")
+seed("C04-r3-2", "C04", "x / 2^n -> x * (1/2^n) also for subnormal powers of two", "a divisor that is a subnormal power of two (1/c overflows)", "C04 quick: program:float:whole:*")
+seed("C04-r3-3", "C04", "sign inference for minimum/maximum with one 'or' for 'and'", "minimum(strictly positive, unknown sign) compared with 0", "C04 quick: step:exact:gt, sign-fact monitor")
+seed("C05-r3-1", "C05", "C++ real constants like a complex128 value printed with float32 digits", "cpp, complex128, constants whose float32 rounding prints differently (1/3, pi, log 2)",
+     "C05 quick: cpp:value-differs:float64", first_result="missed (HELD): the literals like complex values were short (0.1, 2.0, 1.5), and the first directed program multiplied complex by complex, which the C++ reference does not model",
+     strengthened="long literals (1/3, pi, ln 2, 17-digit) like complex64 / complex128 values, combined by sums only")
+seed("C05-r3-2", "C05", "make_complex in the NumPy source header composes r + 1j*i", "emitted text loaded after the target's own header; infinite / NaN / negative-zero parts",
+     "C05 quick: numpy:value-differs", first_result="missed (HELD): the harness supplied utils.make_complex itself instead of executing the target's header",
+     strengthened="emitted Python / NumPy text is executed after exec(target.source_file_header), as a generated file would be")
+seed("C05-r3-3", "C05", "C++ select template without its enclosing parentheses", "sign(select(c, a, b)) printed inline", "C05 quick: cpp:value-differs (directed sign-of-select)")
+seed("C06-r3-1", "C06", "StableHLO Pat<> header takes every argument's element class from the first", "mixed real / complex signatures", "C06 quick: stablehlo:argument-element-type")
+seed("C06-r3-2", "C06", "StableHLO integer-valued float constants spelled as integers (-0.0 becomes \"0\")", "a -0.0 constant", "C06 quick: stablehlo:constant-value")
+seed("C06-r3-3", "C06", "XLA template header emitted only 'when needed' (misses numeric_limits<T> inside an XlaOp initialiser)", "a named constant used only inside an XlaOp local (shipped complex_exp)",
+     "C06 quick: xla_client:type-name-not-declared", first_result="missed (HELD): the parser accepted an absent template header and nothing related type names in the body to it",
+     strengthened="every type name used in the body (numeric_limits<T>, 'T name = ..' locals) must be XlaOp or the declared template parameter")
+seed("C08-r3-1", "C08", "Type.max: a float widens a complex only as the right operand", "(float64, complex64) in that order", "C08 quick: static-vs-runtime:*")
+seed("C08-r3-2", "C08", "copysign typed like its first operand", "a sign operand wider than the magnitude", "C08 quick: static-vs-runtime:copysign")
+seed("C08-r3-3", "C08", "make_ref compares is_same_kind instead of is_same", "one literal like operands of different width, the wider printed first, the narrower branch assigned or returned",
+     "C08 quick: emitted-debug-assertion-fires", first_result="missed (HELD): no generated program used one literal like operands of two widths with both uses referenced",
+     strengthened="directed shapes 'literal like both widths' (either order of construction) over all dtype pairs")
+seed("C10-r3-1", "C10", "split_veltkamp scales only when C*x would overflow, by a rounded quotient", "x = +-RN(largest/C) in float16 / float64", "C10 quick: fpa.mul_dekker-exact, apmath.two_prod-exact, overflow-guard")
+seed("C10-r3-2", "C10", "utils.add_2sum symmetric form", "sums carrying into the next binade with a rounding error of half an ulp or more", "C10 quick: utils.add_2sum-exact")
+seed("C10-r3-3", "C10", "apmath.split exposes scale with the default False", "|a| > largest/C through the wrapper",
+     "C10 quick: apmath.split-sum", first_result="missed (HELD): the wrapper was only judged through the contracted function it calls, with the arguments it passes",
+     strengthened="apmath.split is judged at its own boundary as the scaling splitter")
+seed("C11-r3-1", "C11", "traced apmath.fma (a7): the first two_sum loses fix_overflow", "z = +-largest exactly and RN(x*y) = (4j+3) 2^(emax-p) of the opposite sign", "C11 quick: apmath.fma-bound:a7:fo=1")
+seed("C11-r3-2", "C11", "add_dw adds gl twice instead of tl", "add_4sum under two-level cancellation", "C11 quick: add_4sum-bound")
+seed("C11-r3-3", "C11", "fma_real 'apmath': fix_overflow passed positionally into scale", "products near largest / large |x| without scaling", "C11 quick: fma_real-bound:apmath")
+seed("C12-r3-1", "C12", "square skips its last diagonal", "leading zero or overlapping words", "C12 quick: square-error-bound:unnormalised-operands")
+seed("C12-r3-2", "C12", "per-dtype length cap one too small", "float16 results that need exactly 4 words", "C12 quick: add-not-exact, subtract-not-exact, renormalize-sum")
+seed("C12-r3-3", "C12", "utils.overlapping asymmetric (|y| >= ulp(x) twice)", "the smaller item passed first",
+     "C12 quick: utils.overlapping", first_result="missed (HELD): the ASSUME text promised a cross-check of the package's overlap predicate that did not exist",
+     strengthened="utils.overlapping is monitored on neighbouring items in both orders against |x| >= ulp(y) and |y| >= ulp(x)")
+seed("C13-r3-1", "C13", "mpf2multiword loses the sign of x", "any negative value", "C13 quick: multiword-roundtrip")
+seed("C13-r3-2", "C13", "number2float routes floats and ints through fractions", "-0.0, NaN, infinities of a narrower type",
+     "C13 quick: number2float-identity", first_result="missed (HELD): number2float was not driven", strengthened="number2float to the same and to wider types for every value (bit identity)")
+seed("C13-r3-3", "C13", "expansion2mpf stops at the first zero word", "[hi, 0, lo]",
+     "C13 quick: expansion2mpf-with-zero-words", first_result="missed (HELD): only expansions produced by mpf2expansion were converted back", strengthened="zero words inserted in front, in the middle and at the end")
+
 for id_, meta in T.items():
     d = os.path.join(ROOT, id_)
     if not os.path.isdir(d):
